@@ -98,24 +98,58 @@ Definition do_del (s : st) (k : Z) : option (st * Z) :=
   | None => None
   | Some r => Some (mkSt (d_tree r) (t_fresh s) (t_events s ++ d_ev r), d_val r)
   end.
+(* a delete that ends in KeyError still declared its read dependencies (the C
+   extension raises before that when the root is empty) *)
+Definition del_failed (s : st) (k : Z) : st :=
+  match t_tree s with
+  | Node _ [] => if iand_rebuilds then s else mkSt (t_tree s) (t_fresh s) (t_events s ++ read_path Z (t_tree s) k)
+  | t => mkSt t (t_fresh s) (t_events s ++ read_path Z t k)
+  end.
+(* Python's clear() assigns _firstbucket even on an empty tree, which marks it changed *)
 Definition do_clear (s : st) : st :=
-  let '(t', ev) := tclear Z (t_tree s) in mkSt t' (t_fresh s) (t_events s ++ ev).
+  let '(t', ev) := tclear Z (t_tree s) in
+  let ev' := match t_tree s with
+             | Node i [] => if iand_rebuilds then ev else [EChanged i]
+             | _ => ev
+             end in
+  mkSt t' (t_fresh s) (t_events s ++ ev').
 Definition has (s : st) (k : Z) : bool :=
   match tget Z (t_tree s) k with Some _ => true | None => false end.
+(* C: discard is a delete whose KeyError is suppressed (the descent declared its
+   reads); Python: a membership test first *)
 Definition discard (s : st) (k : Z) : st :=
-  if has s k then match do_del s k with Some (s', _) => s' | None => s end else s.
-Definition add (s : st) (k : Z) : st := let '(s', _, _) := do_set s k 0 true in s'.
+  if has s k then match do_del s k with Some (s', _) => s' | None => s end
+  else if iand_rebuilds then del_failed s k else s.
+(* Python's Set._set reports False (not None) for an existing key, so the
+   "single bucket without oid changed" rule of _Tree._set fires although
+   nothing changed *)
+Definition set_nochange_quirk (s : st) (stt : status) : st :=
+  match stt, t_tree s with
+  | StNone, Node i [(_, Leaf l _)] =>
+    if iand_rebuilds then s else mkSt (t_tree s) (t_fresh s) (t_events s ++ [EEmbed i l])
+  | _, _ => s
+  end.
+Definition add (s : st) (k : Z) : st :=
+  let '(s', stt, _) := do_set s k 0 true in set_nochange_quirk s' stt.
 
 Definition step (s : st) (c : call) : st * out :=
   match c with
   | CSet k v => let '(s', _, _) := do_set s k v false in (s', ONone)
-  | CDel k => match do_del s k with Some (s', _) => (s', ONone) | None => (s, OKeyError) end
+  | CDel k => match do_del s k with Some (s', _) => (s', ONone) | None => (del_failed s k, OKeyError) end
   | CInsert k v => let '(s', stt, _) := do_set s k v true in
                    (s', OBool (match stt with St1 => true | _ => false end))
-  | CSetdefault k v => let '(s', _, rv) := do_set s k v true in
-                       (s', match rv with Some x => OVal x | None => OOther end)
-  | CPop k => match do_del s k with Some (s', v) => (s', OVal v) | None => (s, OKeyError) end
-  | CPopD k d => match do_del s k with Some (s', v) => (s', OVal v) | None => (s, OVal d) end
+  | CSetdefault k v =>
+    (* BTree_setdefault looks the key up first and returns without touching the tree *)
+    match (if iand_rebuilds then tget Z (t_tree s) k else None) with
+    | Some x => (s, OVal x)
+    | None => let '(s', _, rv) := do_set s k v true in
+              (s', match rv with Some x => OVal x | None => OOther end)
+    end
+  (* BTree_pop looks the key up first and never starts a delete for a missing key *)
+  | CPop k => match do_del s k with Some (s', v) => (s', OVal v)
+              | None => (if iand_rebuilds then s else del_failed s k, OKeyError) end
+  | CPopD k d => match do_del s k with Some (s', v) => (s', OVal v)
+                 | None => (if iand_rebuilds then s else del_failed s k, OVal d) end
   | CPopitem => match contents Z (t_tree s) with
                 | [] => (s, OKeyError)
                 | (k, v) :: _ => match do_del s k with Some (s', _) => (s', OKV k v) | None => (s, OOther) end
@@ -131,8 +165,8 @@ Definition step (s : st) (c : call) : st * out :=
   | CKeys => (s, OKeys (map fst (contents Z (t_tree s))))
   | CItems => (s, OItems (map kv_of (contents Z (t_tree s))))
   | CAdd k => let '(s', stt, _) := do_set s k 0 true in
-              (s', OBool (match stt with St1 => true | _ => false end))
-  | CRemove k => match do_del s k with Some (s', _) => (s', ONone) | None => (s, OKeyError) end
+              (set_nochange_quirk s' stt, OBool (match stt with St1 => true | _ => false end))
+  | CRemove k => match do_del s k with Some (s', _) => (s', ONone) | None => (del_failed s k, OKeyError) end
   | CDiscard k => (discard s k, ONone)
   | CSPop => match contents Z (t_tree s) with
              | [] => (s, OKeyError)
